@@ -81,10 +81,12 @@ class T2Case(TagCase):
                 "old_len": len(self.old), "terminator": lay.terminator}
 
 
-def gen_t2(sim, big=False, want_old=None):
+def gen_t2(sim, big=False, want_old=None, two_sectors=False):
     """A well-formed T2T layout.  Reserved ranges: anywhere except on TLV headers before
     the NDEF TLV and on the NDEF TLV's T and (1- or 3-byte) L field."""
     sizes = [(6, T2_SIZES_SMALL), (3, T2_SIZES_MED)] + ([(2, T2_SIZES_BIG)] if big else [])
+    if two_sectors:
+        sizes = [(1, [2032, 2040])]       # the data area reaches into the second sector (SECTOR SELECT)
     data_area = sim.pick("t2.size", sim.wpick("t2.sizeclass", sizes))
     end = 16 + data_area
     # prefix TLVs
